@@ -1,1 +1,2 @@
 import Ucfg.Props.C20
+import Ucfg.Props.C17
